@@ -94,3 +94,30 @@ package crypto
 //@   ensures [size] bf.len == old(bf.len) + (old(mem(*bf, id)) ? 0 : 1)
 //@   modifies bf.data, bf.data[*], bf.len, alloc
 //@   use entry :: cnt_nonneg(bf.data, len(bf.data))
+
+// ---- Multi: signer lists of multi-signatures. Size counts entries; with pairwise distinct
+// signers (which Sign and Combine establish) it is the number of distinct signers.
+//@ pred mnonnil(s Multi[*ECDSASignature]) = forall i int :: 0 <= i && i < len(s) ==> s[i] != nil
+//@ pred mdistinct(s Multi[*ECDSASignature]) = forall i int, j int :: 0 <= i && i < j && j < len(s) ==> s[i].signer != s[j].signer
+//@ pure func mmem(s Multi[*ECDSASignature], x hotstuff.ID) bool = exists i int :: 0 <= i && i < len(s) && s[i].signer == x
+
+//@ func (Multi[*ECDSASignature]).Contains property C19
+//@   requires mnonnil(sig)
+//@   ensures [def] result == mmem(sig, id)
+//@ func (Multi[*ECDSASignature]).Len property C19
+//@   ensures [def] result == len(sig)
+
+//@ func (*ECDSA).Combine property C19
+//@   requires forall k int :: 0 <= k && k < len(signatures) && istype(signatures[k], Multi[*ECDSASignature]) ==> mnonnil(as(signatures[k], Multi[*ECDSASignature]))
+//@   ensures [distinct] result1 == nil ==> istype(result0, Multi[*ECDSASignature]) && mdistinct(as(result0, Multi[*ECDSASignature])) && mnonnil(as(result0, Multi[*ECDSASignature]))
+//@   ensures [atleast2] len(signatures) < 2 ==> result1 != nil
+//@   loop 0 invariant [distinct] mdistinct(ts)
+//@   loop 0 invariant [nonnil] mnonnil(ts)
+//@   loop 0 invariant [fresh] fresh(ts) && preserved([]*ECDSASignature)
+//@   loop 1 invariant [distinct] mdistinct(ts)
+//@   loop 1 invariant [nonnil] mnonnil(ts)
+//@   loop 1 invariant [fresh] fresh(ts) && preserved([]*ECDSASignature)
+//@   modifies alloc
+
+// The sentinel errors are initialised once (package initialisation) and never reassigned.
+//@ axiom sentinel_errors_nonnil ErrCombineMultiple != nil && ErrCombineOverlap != nil
